@@ -7,7 +7,8 @@ pub const ASCII_WORDS: &[&str] = &[
     "ipsum", "dolor", "sit", "amet,", "question", "unfortunately", "x", "é", "ß", "café", "naïve", "Ünïcödé", "über",
     "supercalifragilistic", "1", "42", "3.14", "1,5", "2024", "tic-tac-toe", "a-b", "x-", "-y", "--", "--foo-bar",
     "self-aware", "e-mail", "a1-b2", "co-op-er-ate", "don't", "it's", "\"quoted\"", "(paren)", "[x]", "$5", "50%",
-    "a/b", "http://example.com/path", "end.", "yes?", "no!", "a:b", "semi;colon",
+    "a/b", "http://example.com/path", "end.", "yes?", "no!", "a:b", "semi;colon", "rock-n-roll", "x-y-z", "2024-1-15", "m²-x", "½-inch",
+    "well\u{2010}known", "...", "wait", "Mr.", "e.g.,",
 ];
 
 pub const WIDE: &[&str] = &[
@@ -27,7 +28,7 @@ pub const PUNCT: &[&str] = &[
     "*", "+", ">", "#", "=", "<",
 ];
 
-pub const SPACES: &[&str] = &[" ", " ", " ", " ", "  ", "   ", "\t", "\u{a0}", "\u{3000}", "\r", " \t ", "\u{2003}"];
+pub const SPACES: &[&str] = &[" ", " ", " ", " ", "  ", "   ", "\t", "\u{a0}", "\u{3000}", "\r", " \t ", "\u{2003}", "\r\r", " \r"];
 
 pub const PREFIX_CHARS: &[char] = &[' ', '-', '+', '*', '>', '#', '/'];
 
@@ -35,10 +36,13 @@ pub const PREFIX_CHARS: &[char] = &[' ', '-', '+', '*', '>', '#', '/'];
 /// from the whole range '@'..='~' (both ends and '[' included).
 pub fn clean_csi(r: &mut Rng) -> String {
     let mut s = String::from("\u{1b}[");
-    match r.below(10) {
+    match r.below(12) {
         0 => {}
         1..=4 => {
-            s.push_str(*r.pick(&["0", "1", "31", "32", "1;31", "38;5;196", "38;2;255;0;0", "4:3", "?25", "0;1;4"]));
+            s.push_str(*r.pick(&[
+                "0", "1", "31", "32", "1;31", "38;5;196", "38;2;255;0;0", "4:3", "?25", "0;1;4", "38;2;255;128;100", "1;4;38;5;196;48;5;21",
+                "38;2;255;255;255;48;2;0;0;0", "38:2::255:0:0", "58:5:196", "4:0", "200", "201", "15",
+            ]));
         }
         5 => {
             for _ in 0..r.range(1, 4) {
@@ -46,6 +50,12 @@ pub fn clean_csi(r: &mut Rng) -> String {
             }
         }
         6 => s.push_str(if r.chance(1, 8) { "1-2" } else { "1;2" }),
+        7..=8 => {
+            // long parameter strings (length 8..40): guards keyed on a maximum sequence length
+            for _ in 0..r.range(8, 40) {
+                s.push(*r.pick(&['0', '1', '2', '3', '4', '5', '6', '7', '8', '9', ';', ';', ':']));
+            }
+        }
         _ => s.push_str(*r.pick(&["0", "1", "7"])),
     }
     let fin = match r.below(8) {
@@ -61,8 +71,21 @@ pub fn clean_csi(r: &mut Rng) -> String {
 
 /// A well-formed OSC sequence (hyperlink or title) without interior spaces.
 pub fn clean_osc(r: &mut Rng) -> String {
-    let body = *r.pick(&["8;;http://example.com", "8;;", "0;title", "8;id=1;https://x.y/z?q=1", "2;é你", "1337;a=b"]);
     let term = if r.coin() { "\u{7}" } else { "\u{1b}\\" };
+    if r.chance(1, 4) {
+        // random payload: printable ASCII without space (backslashes, brackets, semicolons included)
+        let mut body = String::new();
+        for _ in 0..r.below(24) {
+            let c = (0x21u8 + r.below(0x5e) as u8) as char;
+            body.push(c);
+        }
+        // an ESC-backslash terminator directly after a payload backslash is still well-formed
+        return format!("\u{1b}]{}{}", body, term);
+    }
+    let body = *r.pick(&[
+        "8;;http://example.com", "8;;", "0;title", "8;id=1;https://x.y/z?q=1", "2;é你", "1337;a=b", "\\0", "\\\\server\\share\\file.txt", "8;;file:\\\\host\\x",
+        "", "]", "[31m",
+    ]);
     format!("\u{1b}]{}{}", body, term)
 }
 
@@ -76,21 +99,27 @@ pub fn clean_seq(r: &mut Rng) -> String {
 
 /// SGR colour or hyperlink (for C13).
 pub fn sgr_or_link(r: &mut Rng) -> String {
-    match if r.chance(1, 150) { 6 } else { r.below(6) } {
-        6 => format!("\u{1b}]8;;https://my-site.example/a-b{}", if r.coin() { "\u{7}" } else { "\u{1b}\\" }),
+    match if r.chance(1, 150) { 100 } else { r.below(12) } {
+        100 => format!("\u{1b}]8;;https://my-site.example/a-b{}", if r.coin() { "\u{7}" } else { "\u{1b}\\" }),
         0 => "\u{1b}[0m".to_string(),
         1 => "\u{1b}[31m".to_string(),
         2 => "\u{1b}[1;38;5;196m".to_string(),
         3 => "\u{1b}[m".to_string(),
         4 => format!("\u{1b}]8;;http://example.com{}", if r.coin() { "\u{7}" } else { "\u{1b}\\" }),
-        _ => format!("\u{1b}]8;;{}", if r.coin() { "\u{7}" } else { "\u{1b}\\" }),
+        5 => format!("\u{1b}]8;;{}", if r.coin() { "\u{7}" } else { "\u{1b}\\" }),
+        6 => "\u{1b}[4:3m".to_string(),
+        7 => "\u{1b}[38:2::255:0:0m".to_string(),
+        8 => "\u{1b}[38;2;255;128;100;48;2;0;0;0m".to_string(),
+        9 => "\u{1b}[1m".to_string(),
+        10 => format!("\u{1b}]8;id=a;file:\\\\host\\share{}", if r.coin() { "\u{7}" } else { "\u{1b}\\" }),
+        _ => "\u{1b}[58:5:196m".to_string(),
     }
 }
 
 pub const DIRTY: &[&str] = &[
     "\u{1b}", "\u{1b}[", "\u{1b}]", "\u{1b}X", "\u{1b}\u{1b}[0m", "\u{1b}]8;; http://x\u{7}", "\u{1b}[3 1m", "\u{1b}[31",
     "\u{1b}]0;t", "\u{1b}\\", "\u{1b} ", "\u{1b}\n", "\u{1b}你", "\u{1b}[\u{1b}[m", "\u{1b}]a\u{1b}b\u{7}", "\u{1b}[é",
-    "\u{1b}]\u{1b}", "\u{1b}[1;\n2m",
+    "\u{1b}]\u{1b}", "\u{1b}[1;\n2m", "\u{1b}7", "\u{1b}8", "\u{1b}M", "\u{1b}c", "\u{1b}=", "\u{1b}7", "\u{1b}M",
 ];
 
 /// Blocks from which `Class::Scalars` draws characters (inclusive ranges).
